@@ -148,6 +148,18 @@ def run(rep, tier):
         before = dict(rep.cov)
         run_e1(rep, mod, tier, side="C09")
         hosts.append(h)
+    # states reached after a save/restore or an ageing cut (C11's lock-step explorer as host)
+    from vf import par
+    from vf.props import c11
+    c11.C09_ON_CUT_STATES = True
+    n_cut = 0
+    for r in par.pmap(c11.explore, c11.tasks(tier)):
+        n_cut += r["stats"].get("c09_states_checked", 0)
+        for sig, what, info in r.get("c09", []):
+            rep.violation(sig, what, info)
+    rep.add("c09_states_checked", n_cut)
+    rep.set("c09_states_checked_after_save_restore_or_ageing", n_cut)
+    hosts.append("c11 (cut states)")
     rep.set("hosts", hosts)
     rep.set("rule", "every state reached by the host explorations; non-trivial = state with >=2 waiting heads")
     rep.set("distinct_nontrivial", rep.cov.get("c09_states_with_2plus_waiting_heads", 0))
